@@ -36,11 +36,16 @@ type vtimer struct {
 	ch     chan time.Time
 	fn     func()
 	active bool
+	vc     vclock // creator's clock: creating a timer happens before its firing
 }
 
 func (s *sched) addTimer(vt *vtimer) {
 	if s.hbOn {
 		s.acc(s.cur, kClock, true)
+	}
+	if race.on && s.cur != nil {
+		vt.vc = vclone(s.cur.vc)
+		s.cur.tick()
 	}
 	s.timerSeq++
 	vt.seq = s.timerSeq
@@ -77,6 +82,9 @@ func (s *sched) fire(vt *vtimer) {
 		vt.active = false
 	}
 	s.accSched(kClock, uint64(vt.seq))
+	if race.on && vt.vc != nil {
+		race.objVC[kClock] = vjoin(vclone(race.objVC[kClock]), vt.vc)
+	}
 	if vt.ch != nil {
 		select {
 		case vt.ch <- Base.Add(s.now):
@@ -88,6 +96,9 @@ func (s *sched) fire(vt *vtimer) {
 		parent := -1
 		if s.cur != nil {
 			parent = s.cur.id
+		}
+		if race.on {
+			s.spawnVC = vclone(vt.vc)
 		}
 		s.spawn(vt.fn, "time.AfterFunc", parent)
 	}
